@@ -72,3 +72,31 @@ def result(key, viols, nontrivial=True, **kw) -> dict:
 def small(a, n=12):
     a = np.asarray(a)
     return a.reshape(-1)[:n].tolist()
+
+
+def scribble(obj, _depth=0) -> int:
+    """Hostile-caller step: overwrite, in place, every *writable* NumPy array reachable from a value that a public function
+    returned to the harness (tuples, lists, dicts, objects with a `data` attribute such as MultiImage/GeometricImage). A caller
+    owns what it was handed; if doing this changes what the library returns later, the library handed out its own state
+    (a memo table, a cached index array). jax arrays are immutable and are left alone. Returns the number of arrays overwritten.
+    Only call it on results whose harness-side inputs are not used again (an output may legitimately alias an input)."""
+    n = 0
+    if _depth > 4 or obj is None:
+        return 0
+    if isinstance(obj, np.ndarray):
+        if obj.flags.writeable and obj.size:
+            try:
+                obj[...] = np.asarray(-777, dtype=obj.dtype) if obj.dtype.kind in "iuf" else obj.flat[0]
+                return 1
+            except (ValueError, TypeError):
+                return 0
+        return 0
+    if isinstance(obj, (tuple, list)):
+        for v in obj:
+            n += scribble(v, _depth + 1)
+    elif isinstance(obj, dict):
+        for v in obj.values():
+            n += scribble(v, _depth + 1)
+    elif hasattr(obj, "data") and not isinstance(obj, (str, bytes)) and type(obj).__module__.startswith("ginjax"):
+        n += scribble(obj.data, _depth + 1)
+    return n
